@@ -151,3 +151,41 @@ CHECKS['C16'] = cfg_property('Bounded only: list(scfg) and the concealed view of
 CHECKS['C14'] = cfg_property(PROVED_NOTE + 'C14: all value-level clauses of insert_block (+4 typed wrappers), add_block, remove_blocks and '
                              'SyntheticBranch.replace_jump_targets are proved; the hierarchy clause for region predecessors and edit sequences are '
                              'covered by the bounded pass (path equivalence after every stage = sequences of the real edits).')
+
+
+def c13(prop, pool, verdict, tier, seed):
+    from rtc import prop_c13
+    e1 = run_e1(prop, pool, verdict, tier, seed)
+    fz = run_fuzz(prop, pool, verdict, tier, seed)
+    d = prop_c13.run(pool, tier, seed)
+    by = {}
+    for f in d['fails']:
+        by.setdefault(f['query'], []).append(f)
+    for q, fs in sorted(by.items()):
+        f = min(fs, key=lambda x: (len(x['graph']), str(x['graph'])))
+        rp = write_replay(prop, 'digraph-' + q, {'kind': 'digraph-query', 'property': prop, 'query': q, 'graph': f['graph'],
+                                                 'backedges': f['backedges'], 'detail': f['detail'], 'failing_inputs_in_scope': len(fs)})
+        verdict.violation(rp)
+    cov = coverage_from(e1, fz, PROVED_NOTE + 'C13: find_head, find_headers_and_entries (top-level graphs), find_exiting_and_exits, is_reachable_dfs '
+                        '(with the closure principle R-ind instantiated at the loop head), exclude_blocks, jump_targets/is_exiting are proved equal to their '
+                        'definitions; compute_scc/scc, the dominator helpers and _imm_doms are compared with brute-force definitions on the enumerated digraphs (bounded).')
+    cov['evaluations'] = d['graphs'] + fz['evaluations']
+    cov['distinct_nontrivial'] = d['nontrivial']
+    cov['rule'] = ('all maps from n nodes to target tuples over the nodes plus one external name (self loops, duplicates, external targets), without and with one '
+                   'declared back edge, every subset for the subset queries, every (node, name) pair for reachability; scope: %s; non-trivial = has at least one edge'
+                   % json.dumps(d['scope']))
+    cov['exhaustive'] = d['exhaustive']
+    cov['samples'] = cov['samples'] + d['samples'][:2]
+    return 'other', cov, e1['assumptions'] + ['axiom R-ind (closure principle of reachability) is assumed, instantiated with the `seen` set of is_reachable_dfs']
+
+
+def replay_digraph(r):
+    from rtc import prop_c13
+    bad = [b for b in prop_c13.check_digraph({k: tuple(v) for k, v in r['graph'].items()}, {k: tuple(v) for k, v in r['backedges'].items()})
+           if b[0] == r['query']]
+    print('replay digraph query %s on %s: %d mismatches %s' % (r['query'], r['graph'], len(bad), str(bad[:1])[:300]))
+    return 1 if bad else 0
+
+
+CHECKS['C13'] = c13
+REPLAYERS['digraph-query'] = replay_digraph
